@@ -2,6 +2,13 @@ import SpoxModel.Lemmas.Dispatch
 import SpoxModel.Generated.ResultType
 /-!
 # C17 — overloaded Python operators on Var follow numpy semantics
+
+The model (`Model/Dispatch.lean`) is executed against the real dispatcher on every run (emitted
+operator tree, result dtype or error class, for every operator x operand kind x side x setting) and its
+integer semantics `eval` against onnxruntime (tie H); numpy's promotion tables, numpy's own result
+dtypes and ONNX's operator type constraints (`Generated/ResultType.lean`) are tabulated from numpy and
+onnx.defs on every run (tie G), so the `decide` theorems are re-proved against what they say *now*.
+Values of floating-point results are not the subject of a theorem (see `floordiv_float_partial`).
 -/
 namespace C17
 open Dispatch Generated.ResultType
